@@ -610,6 +610,47 @@ func (x *extractor) factsRouting() {
 	x.set("route_self_filter", selfFilter)
 	x.set("route_forwarder_rewrite", rewrite)
 	x.set("route_seen_atomic", atomic)
+	// expireSeenUpdates: everything the function writes (fields of s assigned, map entries deleted), and the lock it holds meanwhile
+	expire := "unknown"
+	if fd := x.fn(netceptorGo, "Netceptor", "expireSeenUpdates"); fd != nil {
+		writes := map[string]bool{}
+		locked := false
+		ast.Inspect(fd.Body, func(n ast.Node) bool {
+			switch v := n.(type) {
+			case *ast.AssignStmt:
+				for _, l := range v.Lhs {
+					if t := x.str(l); strings.HasPrefix(t, "s.") {
+						writes["assign:"+t] = true
+					}
+				}
+			case *ast.IncDecStmt:
+				if t := x.str(v.X); strings.HasPrefix(t, "s.") {
+					writes["assign:"+t] = true
+				}
+			case *ast.CallExpr:
+				c := x.str(v.Fun)
+				if c == "delete" && len(v.Args) == 2 {
+					writes["delete:"+x.str(v.Args[0])] = true
+				} else if c == "s.seenUpdatesLock.Lock" {
+					locked = true
+				} else if strings.HasPrefix(c, "s.") && !strings.HasSuffix(c, "Lock") && !strings.HasSuffix(c, "Unlock") &&
+					c != "s.context.Done" && !strings.HasSuffix(c, ".Before") {
+					writes["call:"+c] = true
+				}
+			}
+			return true
+		})
+		var ws []string
+		for w := range writes {
+			ws = append(ws, w)
+		}
+		sort.Strings(ws)
+		expire = strings.Join(ws, ";")
+		if locked {
+			expire += ";under:seenUpdatesLock"
+		}
+	}
+	x.set("route_expire_writes", expire)
 }
 
 // ---------------------------------------------------------------- C01: updateRoutingTable
